@@ -1,1 +1,139 @@
-import Simfile.Spec.Timeline
+/-
+C12 — `TimingEngine.beat_at` (search on the state times: bisect_left for the WARP tag, bisect_right
+otherwise; then `beats_until` rounded to the tick) against the declarative timeline.
+Property theorems only; helper lemmas live in Simfile/Lemmas/EngineIndex.lean, EngineBeat*.lean,
+EngineEval.lean, EngineRedundant*.lean (and the C11 library). Domain hypothesis: `Simfile.C11.Dom`.
+`T(b,g)` below is `Spec.timeSpec td b g`, which is `timeAt td b g` on the domain (C11).
+-/
+import Simfile.Lemmas.EngineBeatInv
+import Simfile.Lemmas.EngineEval
+import Simfile.Lemmas.EngineRedundant
+import Simfile.Props.C11
+namespace Simfile.C12
+open Simfile C11
+
+/-- 3. the state times never decrease (this is what justifies the repaired search on the times alone) -/
+theorem times_monotone (td : TimingData) (h : Dom td) : ((states td).map (·.time)).Pairwise (· ≤ ·) := by
+  rw [List.pairwise_map]
+  exact times_sorted h
+
+/-- 4. the algorithm before the repair (bisect on (time, tag) pairs in state order) depends on redundant
+BPM rows: on timing data in the domain, two redundant `60 bpm` rows move its answer from beat 8 to
+beat 5, while the repaired `beat_at` answers 8 both times -/
+theorem old_algorithm_counterexample :
+    let td₀ : TimingData := { bpms := [(0,60)], stops := [(5,1)], delays := [], warps := [(4,4)], offset := 0 }
+    let td₁ : TimingData := { td₀ with bpms := [(0,60),(1,60),(2,60)] }
+    Dom td₀ ∧ Dom td₁ ∧
+    beatAtOld td₀ 5 .stop = 8 ∧ beatAtOld td₁ 5 .stop = 5 ∧ beatAt td₀ 5 .stop = 8 ∧ beatAt td₁ 5 .stop = 8 :=
+  ⟨cexTd0_dom, cexTd1_dom, cex_old⟩
+
+/-- 5. `beat_at` inverts `time_at` on every tick-aligned beat outside the warp union (negative
+tick-aligned beats included) -/
+theorem inverse_on_grid (td : TimingData) (h : Dom td) (b : Rat) (hb : onGrid b)
+    (hw : Spec.inWarp td b = false) : beatAt td (timeAt td b .stop) .stop = b := by
+  rw [time_refines_spec td h]
+  exact beatAt_timeSpec h hb hw
+
+/-- 6a. strictly inside a stop, whatever the tag, `beat_at` answers the beat of the stop -/
+theorem inside_pause (td : TimingData) (h : Dom td) (b L : Rat) (hs : (b, L) ∈ td.stops) (t : Rat)
+    (h1 : Spec.timeSpec td b .stop < t) (h2 : t < Spec.timeSpec td b .stop + L) (g : Tag) :
+    beatAt td t g = b :=
+  beatAt_pause h .stop .stopEnd (by simp) (Or.inl rfl) b L (ev_stop hs) (ev_stopEnd hs) t h1 h2 g
+
+/-- 6b. the same inside a delay -/
+theorem inside_pause_delay (td : TimingData) (h : Dom td) (b L : Rat) (hs : (b, L) ∈ td.delays) (t : Rat)
+    (h1 : Spec.timeSpec td b .delay < t) (h2 : t < Spec.timeSpec td b .delay + L) (g : Tag) :
+    beatAt td t g = b :=
+  beatAt_pause h .delay .delayEnd (by simp) (Or.inr rfl) b L (ev_delay hs) (ev_delayEnd hs) t h1 h2 g
+
+/-- 7. every answer of `beat_at` is tick-aligned -/
+theorem tick_aligned (td : TimingData) (h : Dom td) (t : Rat) (g : Tag) : onGrid (beatAt td t g) :=
+  beatAt_grid h t g
+
+/-- 8. `beat_at` is monotone in the time, for each tag -/
+theorem monotone (td : TimingData) (h : Dom td) (g : Tag) {t₁ t₂ : Rat} (ht : t₁ ≤ t₂) :
+    beatAt td t₁ g ≤ beatAt td t₂ g :=
+  beatAt_mono h g ht
+
+/-! ### 9. redundant BPM rows: FALSE as stated (finding), with the counter-example and what does hold -/
+
+/-- the full statement asked for: inserting the redundant row `(x, bpmOn td x)` changes no answer -/
+def independent_of_redundant_bpm_statement : Prop :=
+  ∀ (td : TimingData), Dom td → ∀ (x : Rat), onGrid x → 0 < x → (∀ e ∈ td.bpms, e.1 ≠ x) →
+    ∀ (t : Rat) (g : Tag), beatAt (withBpm td x) t g = beatAt td t g
+
+/-- FINDING: the statement is false in the exact model. `round_to_tick` rounds half ticks to the even
+tick, and a redundant BPM row moves the origin of the rounding by an odd number of ticks: with a
+single `60 bpm` row and offset 0, time `3/96` (one and a half ticks) is beat `2/48`; with the redundant
+row `(1/48, 60)` it is beat `1/48`. -/
+theorem independent_of_redundant_bpm_counterexample : ¬ independent_of_redundant_bpm_statement := by
+  intro hst
+  exact cex_tie_ne (hst tieTd tieTd_dom (1/48) tie_hyps.1 tie_hyps.2.1 tie_hyps.2.2 (3/96) .stop)
+
+/-- the concrete values of the counter-example -/
+theorem independent_of_redundant_bpm_counterexample_values :
+    let td : TimingData := { bpms := [(0,60)], stops := [], delays := [], warps := [], offset := 0 }
+    Dom td ∧ onGrid (1/48 : Rat) ∧ (0 : Rat) < 1/48 ∧ (∀ e ∈ td.bpms, e.1 ≠ 1/48) ∧
+    beatAt td (3/96) .stop = 1/24 ∧ beatAt (withBpm td (1/48)) (3/96) .stop = 1/48 :=
+  ⟨tieTd_dom, tie_hyps.1, tie_hyps.2.1, tie_hyps.2.2, cex_tie.1, cex_tie.2⟩
+
+/-- what holds (partial; the extra hypothesis is `hnt`): the redundant row changes no answer at any time `t`
+that is not an exact half tick away (in beats, at that state's BPM) from any state of the machine;
+`halfTick u` is `∃ m : ℤ, u * 48 = m + 1/2`. Tight on the counter-example above (non-vacuity example in
+Simfile/Lemmas/EngineRedundant.lean). -/
+theorem independent_of_redundant_bpm_partial (td : TimingData) (h : Dom td) (x : Rat) (hx : onGrid x)
+    (hpos : 0 < x) (hnew : ∀ e ∈ td.bpms, e.1 ≠ x) (t : Rat) (g : Tag)
+    (hnt : ∀ s ∈ states td, ¬ halfTick ((t - s.time) / 60 * s.bpm)) :
+    beatAt (withBpm td x) t g = beatAt td t g :=
+  beatAt_withBpm_of_no_tie td h x hx hpos hnew t g hnt
+
+/-- … and unconditionally the two answers are never more than one tick apart -/
+theorem independent_of_redundant_bpm_near (td : TimingData) (h : Dom td) (x : Rat) (hx : onGrid x)
+    (hpos : 0 < x) (hnew : ∀ e ∈ td.bpms, e.1 ≠ x) (t : Rat) (g : Tag) :
+    |beatAt (withBpm td x) t g - beatAt td t g| ≤ 1 / 48 :=
+  beatAt_withBpm_near td h x hx hpos hnew t g
+
+/-- corollary: at the time of every tick-aligned beat outside the warps, the redundant row
+changes nothing (both answers are that beat) -/
+theorem independent_of_redundant_bpm_on_grid (td : TimingData) (h : Dom td) (x : Rat) (hx : onGrid x)
+    (hpos : 0 < x) (hnew : ∀ e ∈ td.bpms, e.1 ≠ x) (b : Rat) (hb : onGrid b)
+    (hw : Spec.inWarp td b = false) :
+    beatAt (withBpm td x) (timeAt td b .stop) .stop = beatAt td (timeAt td b .stop) .stop := by
+  have h' := dom_withBpm td h x hx hpos hnew
+  rw [inverse_on_grid td h b hb hw, time_refines_spec td h, ← timeSpec_withBpm td h x hpos hnew]
+  exact beatAt_timeSpec h' hb (by rw [inWarp_withBpm]; exact hw)
+
+/-- corollary: strictly inside a stop the redundant row changes nothing either -/
+theorem independent_of_redundant_bpm_in_pause (td : TimingData) (h : Dom td) (x : Rat) (hx : onGrid x)
+    (hpos : 0 < x) (hnew : ∀ e ∈ td.bpms, e.1 ≠ x) (b L : Rat) (hs : (b, L) ∈ td.stops) (t : Rat)
+    (h1 : Spec.timeSpec td b .stop < t) (h2 : t < Spec.timeSpec td b .stop + L) (g : Tag) :
+    beatAt (withBpm td x) t g = beatAt td t g := by
+  have h' := dom_withBpm td h x hx hpos hnew
+  rw [inside_pause td h b L hs t h1 h2 g]
+  apply inside_pause (withBpm td x) h' b L hs t
+  · rw [timeSpec_withBpm td h x hpos hnew]; exact h1
+  · rw [timeSpec_withBpm td h x hpos hnew]; exact h2
+
+/-! ### non-vacuity -/
+
+/-- a concrete input in the domain: a stop on beat 5 inside the warp [4, 8) -/
+example : Dom cexTd0 := cexTd0_dom
+
+/-- the hypotheses of `inverse_on_grid` are satisfiable: beat 1 is tick-aligned and outside the warp -/
+example : onGrid (1 : Rat) ∧ Spec.inWarp cexTd0 1 = false :=
+  ⟨⟨48, by rw [C14.ticks_is_48]; norm_num⟩, by decide +kernel⟩
+
+/-- … and a negative tick-aligned beat -/
+example : onGrid (-1/48 : Rat) ∧ Spec.inWarp cexTd0 (-1/48) = false :=
+  ⟨⟨-1, by rw [C14.ticks_is_48]; norm_num⟩, by decide +kernel⟩
+
+/-- the hypotheses of `inside_pause` are satisfiable: the stop `(5, 1)` and a time half way through -/
+example : ((5 : Rat), (1 : Rat)) ∈ cexTd0.stops ∧
+    Spec.timeSpec cexTd0 5 .stop < Spec.timeSpec cexTd0 5 .stop + 1/2 ∧
+    Spec.timeSpec cexTd0 5 .stop + 1/2 < Spec.timeSpec cexTd0 5 .stop + 1 := by
+  refine ⟨by simp [cexTd0], by linarith, by linarith⟩
+
+/-- the time window of `inside_pause` / `inside_pause_delay` is never empty: lengths are positive in `Dom` -/
+example (a L : Rat) (hL : 0 < L) : a < a + L / 2 ∧ a + L / 2 < a + L := ⟨by linarith, by linarith⟩
+
+end Simfile.C12
